@@ -262,3 +262,102 @@ pub fn g1_decoder_accepts_outside_subgroup(which: &str) -> bool {
     println!("no witness found");
     false
 }
+
+/// C15, fold of `batch_verify` (level 2 of h_batch_fold.rs): witness search for "a batch with an
+/// invalid member is accepted" against the REAL `midnight_zk_stdlib::batch_verify` (real proofs of
+/// `Tiny`, real SRS from `ParamsKZG::unsafe_setup`, Blake2b transcript). Two honest proofs P0, P1;
+/// P+ / P- are copies of P1 whose final KZG opening point (the last G1 element of the proof) is
+/// shifted by +D / -D: each is rejected by `verify` on its own, and their errors cancel exactly
+/// when they enter the combination with EQUAL weights. For every batch size 1..=max_n:
+///   * the all-honest batch must be accepted;
+///   * every batch with P+ at ONE position must be rejected (a member that is dropped / gets weight 0);
+///   * every batch with P+ at position i and P- at position j > i must be rejected (two members
+///     with the same weight).
+/// true (= reproduced) iff the real `batch_verify` answers otherwise for at least one of them.
+pub fn batch_fold_attack(max_n: usize) -> bool {
+    use group::{Group, GroupEncoding};
+    use midnight_curves::G1Projective;
+    let max_n = max_n.clamp(1, 5);
+    let mut rng = rand::rngs::StdRng::seed_from_u64(0xC15);
+    let relation = Tiny;
+    let k = midnight_zk_stdlib::MidnightCircuit::from_relation(&relation).min_k();
+    let srs: ParamsKZG<midnight_curves::Bls12> = ParamsKZG::unsafe_setup(k, rng.clone());
+    let vk = midnight_zk_stdlib::setup_vk(&srs, &relation);
+    let pk = midnight_zk_stdlib::setup_pk(&relation, &vk);
+    let vparams = srs.verifier_params();
+    let mut prove = |w: F| {
+        let inst = w * w;
+        let p = midnight_zk_stdlib::prove::<Tiny, blake2b_simd::State>(&srs, &pk, &relation, &inst, w, &mut rng)
+            .expect("honest proof");
+        (inst, p)
+    };
+    let (i0, p0) = prove(F::from(3));
+    let (i1, p1) = prove(F::from(5));
+    let shift = |proof: &[u8], delta: G1Projective| -> Vec<u8> {
+        let rl = <G1Projective as GroupEncoding>::Repr::default().as_ref().len();
+        let split = proof.len() - rl;
+        let mut repr = <G1Projective as GroupEncoding>::Repr::default();
+        repr.as_mut().copy_from_slice(&proof[split..]);
+        let pi: G1Projective = Option::from(G1Projective::from_bytes(&repr)).expect("the proof ends with a G1 point");
+        let mut t = proof[..split].to_vec();
+        t.extend_from_slice((pi + delta).to_bytes().as_ref());
+        t
+    };
+    let delta = G1Projective::generator() * F::from(0xD17A);
+    let plus = shift(&p1, delta);
+    let minus = shift(&p1, -delta);
+    let one = |inst: &F, p: &[u8]| midnight_zk_stdlib::verify::<Tiny, blake2b_simd::State>(&vparams, &vk, inst, None, p).is_ok();
+    if !(one(&i0, &p0) && one(&i1, &p1)) || one(&i1, &plus) || one(&i1, &minus) {
+        println!("batch-fold-attack: sanity failed (honest proofs must verify, shifted copies must not): nothing concluded");
+        return false;
+    }
+    // member kinds: 0 = honest P0, 1 = honest P1, 2 = P+, 3 = P-
+    let batch = |kinds: &[u8]| -> Result<bool, String> {
+        let vks = vec![vk.clone(); kinds.len()];
+        let pis: Vec<Vec<F>> = kinds.iter().map(|k| vec![if *k == 0 { i0 } else { i1 }]).collect();
+        let proofs: Vec<Vec<u8>> = kinds
+            .iter()
+            .map(|k| match k {
+                0 => p0.clone(),
+                1 => p1.clone(),
+                2 => plus.clone(),
+                _ => minus.clone(),
+            })
+            .collect();
+        quiet(|| midnight_zk_stdlib::batch_verify::<blake2b_simd::State>(&vparams, &vks, &pis, &proofs).is_ok())
+    };
+    let show = |kinds: &[u8]| kinds.iter().map(|k| ["P0", "P1", "P+", "P-"][*k as usize]).collect::<Vec<_>>().join(", ");
+    let mut reproduced = false;
+    let mut tried = 0;
+    for n in 1..=max_n {
+        let honest: Vec<u8> = (0..n).map(|i| (i % 2) as u8).collect();
+        tried += 1;
+        match batch(&honest) {
+            Ok(true) => {}
+            r => {
+                println!("batch_verify([{}]) (all members valid) -> {:?}: REJECTED / panicked", show(&honest), r);
+                reproduced = true;
+            }
+        }
+        for i in 0..n {
+            let mut b = honest.clone();
+            b[i] = 2;
+            tried += 1;
+            if let Ok(true) = batch(&b) {
+                println!("batch_verify([{}]) -> Ok: ACCEPTED a batch whose member {i} is invalid", show(&b));
+                reproduced = true;
+            }
+            for j in i + 1..n {
+                let mut c = b.clone();
+                c[j] = 3;
+                tried += 1;
+                if let Ok(true) = batch(&c) {
+                    println!("batch_verify([{}]) -> Ok: ACCEPTED a batch whose members {i} and {j} are invalid (their errors cancel: equal weights)", show(&c));
+                    reproduced = true;
+                }
+            }
+        }
+    }
+    println!("batch-fold-attack: {tried} batches of size 1..={max_n} tried against the real batch_verify; violation found = {reproduced}");
+    reproduced
+}
